@@ -11,18 +11,14 @@
   `Equal` of every set nested in a set is decided by `Hash`: the hash has to be *injective* up to
   denotation, not only to respect `Equal`.
 
-  `wf_unique` (Part 3) and the constructor theorems (Part 5) are proved for ALL canonical representations.
-  For `Equal` and `Hash` (Parts 1, 2, 4) the full statements are kept as `def …_full : Prop`; what is proved
-  is `…_partial` for the fragment `frag`, which now contains every constructor of `Rep`: numbers, generic
-  tuples, character/byte/item/entry tuples, strings and byte arrays (offsets, holes), arrays (offsets,
-  holes), dictionaries (keys with one or several values, incl. `Dict.Equal` against any other set),
-  relations (column order irrelevant), union sets (one subset per bucket), booleans and generic sets of all
-  these, nested arbitrarily.  The one remaining exclusion: an item tuple `(@: i, @item: x)` or entry tuple
-  `(@: k, @value: v)` may not be the *direct* child of a tuple, array, dictionary, relation row or item/entry
-  tuple (`plain`): their `Hash` threads the seed through instead of producing an atom under the slot's
-  seed.  (As members of a set they are array items / dictionary entries and are covered.)
-  This exclusion is necessary: `hash_injective_full_false` and `equal_iff_den_full_false` refute the full
-  statements with exactly such values (open finding KF-seed-threaded-hash; a two-line repair exists).
+  All property theorems are full statements: they hold for ALL canonical representations (`wf`), every
+  constructor of `Rep` nested arbitrarily - numbers, generic tuples, character/byte/item/entry tuples, strings
+  and byte arrays (offsets, holes), arrays (offsets, holes), dictionaries (keys with one or several values,
+  incl. `Dict.Equal` against any other set), relations (column order irrelevant), union sets (one subset per
+  bucket), booleans and generic sets.  This needed the seventh repair: `ArrayItemTuple.Hash` and
+  `DictEntryTuple.Hash` used to return the item's/value's hash under the derived seed unfinished, which made
+  differently nested tuples hash alike (`seed_threading_false_before_repair`); the only statement still
+  bounded is the set builder (`set_builder_wf_small`).
 -/
 import Arrai.C02.Lemmas
 import Arrai.C02.Ctors
@@ -33,20 +29,12 @@ open Arrai Arrai.C02 Arrai.C02.Rep Arrai.C02.Impl
 
 /-! ### Part 1 — `Equal` is equality of denotations on canonical forms -/
 
-def equal_iff_den_full : Prop :=
-  ∀ a b : Rep, wf a = true → wf b = true → (equal a b = true ↔ den a = den b)
+theorem equal_iff_den (a b : Rep) (ha : wf a = true) (hb : wf b = true) : equal a b = true ↔ den a = den b :=
+  (main_all a b ha hb).1
 
-theorem equal_iff_den_partial (a b : Rep) (ha : wf a = true) (hb : wf b = true)
-    (fa : frag a = true) (fb : frag b = true) : equal a b = true ↔ den a = den b :=
-  (main_frag (depth a + depth b + 1) a b (by omega) (by omega) ha hb fa fb).1
-
-def equal_symm_full : Prop :=
-  ∀ a b : Rep, wf a = true → wf b = true → equal a b = equal b a
-
-theorem equal_symm_partial (a b : Rep) (ha : wf a = true) (hb : wf b = true)
-    (fa : frag a = true) (fb : frag b = true) : equal a b = equal b a := by
-  have h1 := equal_iff_den_partial a b ha hb fa fb
-  have h2 := equal_iff_den_partial b a hb ha fb fa
+theorem equal_symm (a b : Rep) (ha : wf a = true) (hb : wf b = true) : equal a b = equal b a := by
+  have h1 := equal_iff_den a b ha hb
+  have h2 := equal_iff_den b a hb ha
   cases h : equal a b <;> cases h' : equal b a
   · rfl
   · exact absurd (h1.2 (h2.1 h').symm) (by simp [h])
@@ -60,57 +48,20 @@ theorem equal_symm_needs_wf :
 
 /-! ### Part 2 — the hash contract, in both directions (frozen trusts hashes) -/
 
-def hash_contract_full : Prop :=
-  ∀ a b : Rep, wf a = true → wf b = true → equal a b = true → hashKey a = hashKey b
-
-theorem hash_contract_partial (a b : Rep) (ha : wf a = true) (hb : wf b = true)
-    (fa : frag a = true) (fb : frag b = true) (pa : plain a = true) (pb : plain b = true)
-    (h : equal a b = true) : hashKey a = hashKey b := by
-  have m := main_frag (depth a + depth b + 1) a b (by omega) (by omega) ha hb fa fb
-  exact (m.2 pa pb [] []).2 ⟨rfl, m.1.1 h⟩
-
-def hash_injective_full : Prop :=
-  ∀ a b : Rep, wf a = true → wf b = true → hashKey a = hashKey b → den a = den b
+theorem hash_contract (a b : Rep) (ha : wf a = true) (hb : wf b = true) (h : equal a b = true) :
+    hashKey a = hashKey b := by
+  have m := main_all a b ha hb
+  exact (m.2 rfl rfl [] []).2 ⟨rfl, m.1.1 h⟩
 
 /-- different values have different (symbolic) hashes: what frozen's hash-trusting `Set.Equal` needs -/
-theorem hash_injective_partial (a b : Rep) (ha : wf a = true) (hb : wf b = true)
-    (fa : frag a = true) (fb : frag b = true) (pa : plain a = true) (pb : plain b = true)
-    (h : hashKey a = hashKey b) : den a = den b :=
-  (((main_frag (depth a + depth b + 1) a b (by omega) (by omega) ha hb fa fb).2 pa pb [] []).1 h).2
+theorem hash_injective (a b : Rep) (ha : wf a = true) (hb : wf b = true) (h : hashKey a = hashKey b) :
+    den a = den b :=
+  (((main_all a b ha hb).2 rfl rfl [] []).1 h).2
 
 /-- under any seed (hashes are also used as seeds of the hashes of enclosing tuples and arrays) -/
-theorem hash_seeded_partial (a b : Rep) (ha : wf a = true) (hb : wf b = true)
-    (fa : frag a = true) (fb : frag b = true) (pa : plain a = true) (pb : plain b = true) (s s' : HV) :
+theorem hash_seeded (a b : Rep) (ha : wf a = true) (hb : wf b = true) (s s' : HV) :
     hashG true a s = hashG true b s' ↔ (s = s' ∧ den a = den b) :=
-  (main_frag (depth a + depth b + 1) a b (by omega) (by omega) ha hb fa fb).2 pa pb s s'
-
-/-! ### the `_full` statements of Parts 1 and 2 are false of the current `Hash` methods
-
-`ArrayItemTuple.Hash` and `DictEntryTuple.Hash` return the hash of the item/value under a seed derived from
-the index/key, unfinished.  The same chain of seeds arises when such tuples are nested the other way round, so
-two different values hash alike under every seed; as direct children of an array (tuple, relation row, …)
-they make two different containers hash alike, and frozen's `Set.Equal` trusts hashes.  On /repo:
-`{[(@: (@: 1, @item: 5), @value: 7)]} = {[(@: 1, @item: (@: 5, @value: 7))]}` is true
-(known finding KF-seed-threaded-hash).  This is exactly the case `frag`/`plain` exclude. -/
-
-/-- the collision, for all components and every seed -/
-theorem seed_threading_collision (i : Int) (a b : Rep) (s : HV) :
-    hashG true (.entryT (.itemT i a) b) s = hashG true (.itemT i (.entryT a b)) s := by
-  simp [hashG]
-
-theorem hash_injective_full_false : ¬ hash_injective_full := by
-  intro h
-  have := h (.array [some (.entryT (.itemT 1 (.num 5)) (.num 7))] 0 1)
-    (.array [some (.itemT 1 (.entryT (.num 5) (.num 7)))] 0 1) (by decide) (by decide) (by decide)
-  revert this
-  decide
-
-theorem equal_iff_den_full_false : ¬ equal_iff_den_full := by
-  intro h
-  have := (h (.generic [.array [some (.entryT (.itemT 1 (.num 5)) (.num 7))] 0 1])
-    (.generic [.array [some (.itemT 1 (.entryT (.num 5) (.num 7)))] 0 1]) (by decide) (by decide)).1 (by decide)
-  revert this
-  decide
+  (main_all a b ha hb).2 rfl rfl s s'
 
 /-! ### Part 3 — canonical forms are unique -/
 
@@ -188,28 +139,22 @@ theorem wf_unique (a b : Rep) (ha : wf a = true) (hb : wf b = true) (h : den a =
 
 /-! ### Part 4 — equal values collapse: one member of a built set, the same dictionary entry -/
 
-def collapse_full : Prop :=
-  ∀ x y : Rep, wf x = true → wf y = true → den x = den y →
-    dedupFrozen [x, y] = [x] ∧ ∀ v, dictGet (newDict [(x, v)]) y = [v]
-
-theorem collapse_partial (x y : Rep) (hx : wf x = true) (hy : wf y = true)
-    (fx : frag x = true) (fy : frag y = true) (px : plain x = true) (py : plain y = true) (h : den x = den y) :
+theorem collapse (x y : Rep) (hx : wf x = true) (hy : wf y = true) (h : den x = den y) :
     dedupFrozen [x, y] = [x] ∧ ∀ v, dictGet (newDict [(x, v)]) y = [v] := by
-  have he : equal x y = true := (equal_iff_den_partial x y hx hy fx fy).2 h
-  have hh : hashKey x = hashKey y := hash_contract_partial x y hx hy fx fy px py he
+  have he : equal x y = true := (equal_iff_den x y hx hy).2 h
+  have hh : hashKey x = hashKey y := hash_contract x y hx hy he
   constructor
   · simp [dedupFrozen, memFrozen, hh, he]
   · intro v
     simp [newDict, dictGet, hh, he]
 
 /-- and different values stay apart -/
-theorem no_collapse_partial (x y : Rep) (hx : wf x = true) (hy : wf y = true)
-    (fx : frag x = true) (fy : frag y = true) (h : den x ≠ den y) :
+theorem no_collapse (x y : Rep) (hx : wf x = true) (hy : wf y = true) (h : den x ≠ den y) :
     dedupFrozen [x, y] = [x, y] ∧ ∀ v, dictGet (newDict [(x, v)]) y = [] := by
   have he : equal x y = false := by
     cases e : equal x y with
     | false => rfl
-    | true => exact absurd ((equal_iff_den_partial x y hx hy fx fy).1 e) h
+    | true => exact absurd ((equal_iff_den x y hx hy).1 e) h
   constructor
   · simp [dedupFrozen, memFrozen, he]
   · intro v
@@ -239,28 +184,17 @@ theorem string_without_wf (s : List Int) (off holes ix ch : Int)
     den (strWithout s off holes ix ch) = specWithout (strMembers off s) (vpair "@char" (.num ix) (.num ch)) :=
   string_without_wf_den s off holes ix ch hw hc
 
-/-- `Array.Without` (repaired), every array, index and item for which `Equal` with the stored items decides equality
-of denotations -/
+/-- `Array.Without` (repaired), every canonical array, index and canonical item: canonical result, exactly that
+member removed -/
 theorem array_without_wf (vs : List (Option Rep)) (off c ix : Int) (item : Rep)
-    (hw : wf (.array vs off c) = true)
-    (H : ∀ v, some v ∈ vs → (equal v item = true ↔ den v = den item)) :
-    wf (arrWithout vs off c ix item) = true ∧
-    den (arrWithout vs off c ix item) =
-      specWithout (arrMembers off (denOpts vs)) (vpair "@item" (.num ix) (den item)) :=
-  array_without_wf_den vs off c ix item hw H
-
-/-- … in particular for arrays and items of the proved fragment -/
-theorem array_without_wf_frag (vs : List (Option Rep)) (off c ix : Int) (item : Rep)
-    (hw : wf (.array vs off c) = true) (hf : frag (.array vs off c) = true)
-    (wi : wf item = true) (fi : frag item = true) :
+    (hw : wf (.array vs off c) = true) (wi : wf item = true) :
     wf (arrWithout vs off c ix item) = true ∧
     den (arrWithout vs off c ix item) =
       specWithout (arrMembers off (denOpts vs)) (vpair "@item" (.num ix) (den item)) := by
   apply array_without_wf_den vs off c ix item hw
   intro v hv
   simp only [wf, Bool.and_eq_true] at hw
-  exact equal_iff_den_partial v item (wfOpts_mem vs v hw.1.2 hv) wi
-    (fragOpts_mem vs v (by simpa [frag] using hf) hv).2 fi
+  exact equal_iff_den v item (wfOpts_mem vs v hw.1.2 hv) wi
 
 /-- `NewTuple`/`TupleBuilder.Finish` (repair #20): unless Go panics (non-number under a sugar heading, pinned by the
 suite) the result is canonical and denotes the attributes given -/
@@ -339,23 +273,43 @@ theorem string_hash_false_before_repair :
     equalOld (.generic [.str [97] 0 0]) (.generic [.bytes [97] 0]) = true ∧
     equal (.generic [.str [97] 0 0]) (.generic [.bytes [97] 0]) = false := by decide
 
+/-- #7 `ArrayItemTuple.Hash`/`DictEntryTuple.Hash` returned the item's/value's hash under the seed derived from
+the index/key, unfinished: the same chain of seeds arises when such tuples are nested the other way round, for
+all components and under every seed -/
+theorem seed_threading_false_before_repair (i : Int) (a b : Rep) (s : HV) :
+    hashG false (.entryT (.itemT i a) b) s = hashG false (.itemT i (.entryT a b)) s := by
+  simp [hashG, tfin]
+
+/-- … so arrays holding them hashed alike and sets of such arrays compared equal (frozen trusts hashes); on the
+unrepaired tree `{[(@: (@: 1, @item: 5), @value: 7)]} = {[(@: 1, @item: (@: 5, @value: 7))]}` was true -/
+theorem seed_threading_sets_false_before_repair :
+    let a : Rep := .generic [.array [some (.entryT (.itemT 1 (.num 5)) (.num 7))] 0 1]
+    let b : Rep := .generic [.array [some (.itemT 1 (.entryT (.num 5) (.num 7)))] 0 1]
+    wf a = true ∧ wf b = true ∧ den a ≠ den b ∧ equalOld a b = true := by decide
+
+theorem seed_threading_repaired :
+    let x : Rep := .entryT (.itemT 1 (.num 5)) (.num 7)
+    let y : Rep := .itemT 1 (.entryT (.num 5) (.num 7))
+    hashKey x ≠ hashKey y ∧
+    equal (.generic [.array [some x] 0 1]) (.generic [.array [some y] 0 1]) = false := by decide
+
 /-! ### every hypothesis is satisfiable by non-trivial values -/
 
 example : let a : Rep := .generic [.generic [.num 1, .str [97, -1, 99] 2 1], .true_, .gtuple [],
                                    .array [some (.gtuple [("a", .num 1), ("b", .bytes [7] 1)]), none, some .empty] (-1) 2]
-    wf a = true ∧ frag a = true ∧ plain a = true := by decide
+    wf a = true := by decide
 
 example : let a : Rep := .generic [.num 1, .bytes [1, 2] 3]
           let b : Rep := .generic [.bytes [1, 2] 3, .num 1]
-    wf a = true ∧ wf b = true ∧ frag a = true ∧ frag b = true ∧ den a = den b ∧ equal a b = true := by decide
+    wf a = true ∧ wf b = true ∧ den a = den b ∧ equal a b = true := by decide
 
 example : let a : Rep := .union [("rel.generic", .generic [.num 1, .num 2]),
       ("rel.DictEntryTuple", .dict [(.num 1, [.num 2]), (.str [97] 0 0, [.num 3, .true_])]),
       ("rel.StringCharTuple", .str [97, -1, 98] 4 1)]
-    wf a = true ∧ frag a = true ∧ plain a = true := by decide
+    wf a = true := by decide
 
 example : let a : Rep := .relation ["b", "a"] [[.num 1, .gtuple [("x", .num 2)]], [.num 2, .empty]]
           let b : Rep := .relation ["a", "b"] [[.empty, .num 2], [.gtuple [("x", .num 2)], .num 1]]
-    wf a = true ∧ wf b = true ∧ frag a = true ∧ frag b = true ∧ den a = den b := by decide
+    wf a = true ∧ wf b = true ∧ den a = den b := by decide
 
 end Arrai.C02.Theorems
